@@ -16,8 +16,9 @@ class Tr:
     """Python boolean/arith expression -> Coq term. env: unparsed python sub-expression -> (coq var, kind)
     kind in {'status', 'Z', 'bool'}"""
 
-    def __init__(self, rel, env):
+    def __init__(self, rel, env, local_defs=None):
         self.rel, self.env = rel, env
+        self.local_defs = local_defs or {}     # name -> ast expr (single assignment in the enclosing function)
 
     def kind(self, n):
         u = ast.unparse(n)
@@ -37,6 +38,8 @@ class Tr:
         u = ast.unparse(n)
         if u in self.env:
             return self.env[u][0]
+        if isinstance(n, ast.Name) and n.id in self.local_defs:
+            return self.term(self.local_defs[n.id])
         if isinstance(n, ast.Attribute) and isinstance(n.value, ast.Name) and n.value.id == "WorkflowStatus":
             return n.attr
         if isinstance(n, ast.Attribute) and n.attr in STATUS_PROPS and self.kind(n.value) == "status":
@@ -128,8 +131,23 @@ def gen_guards() -> str:
                       "task_model.status", "task_model.status", "StartTask proceeds only from this status")
     emit_ignore_guard("run_task_guard", "handlers/run_task/handler.py", ["RunTaskHandler", "handle"],
                       "task_model.status", "task_model.status", "RunTask executes only in this status")
-    emit_ignore_guard("complete_task_guard", "handlers/complete_task.py", ["CompleteTaskHandler", "_handle_with_retry"],
-                      "task.status", "task.status", "CompleteTask records a result only in this status")
+    # CompleteTask: the guard may mention the message status (the SKIPPED-by-StartTask exception)
+    rel = "handlers/complete_task.py"
+    n = _find_if(rel, ["CompleteTaskHandler", "_handle_with_retry"], "task.status")
+    if not _returns_early(n):
+        _fail(rel, n, "complete_task_guard: guarded branch does not return")
+    fn = _find_func(_find_class(_parse(rel), "CompleteTaskHandler", rel).body, "_handle_with_retry", rel)
+    local_defs = {}
+    for x in ast.walk(fn):
+        if isinstance(x, ast.Assign) and len(x.targets) == 1 and isinstance(x.targets[0], ast.Name) and x.lineno < n.lineno:
+            if x.targets[0].id in local_defs:
+                local_defs[x.targets[0].id] = None
+            else:
+                local_defs[x.targets[0].id] = x.value
+    local_defs = {k: v for k, v in local_defs.items() if v is not None}
+    t = Tr(rel, {"task.status": ("st", "status"), "message.status": ("ms", "status")}, local_defs).term(n.test)
+    out.append(f"(* {rel}:{n.lineno} `if {ast.unparse(n.test)}: ... return` — CompleteTask records a result only when this holds *)")
+    out.append(f"Definition complete_task_guard (st ms : status) : bool := negb {t}.\n")
     emit_ignore_guard("skip_stage_guard", "handlers/skip_stage.py", ["SkipStageHandler", "_handle_with_retry"],
                       "stage.status", "stage.status", "SkipStage applies only in this status")
     emit_ignore_guard("cancel_stage_guard", "handlers/cancel_stage.py", ["CancelStageHandler", "_handle_with_retry"],
@@ -149,6 +167,13 @@ def gen_guards() -> str:
     t = Tr("handlers/start_stage/handler.py", {"stage.status": ("st", "status")}).term(n.test)
     out.append(f"(* handlers/start_stage/handler.py:{n.lineno} `if {ast.unparse(n.test)}` — already-processed test *)")
     out.append(f"Definition start_stage_fresh (st : status) : bool := negb {t}.\n")
+    # late/duplicate StartStage for a stage that already left NOT_STARTED (handle, NOT_READY path)
+    n = _find_if("handlers/start_stage/handler.py", ["StartStageHandler", "handle"], "stage.status")
+    if not _returns_early(n):
+        _fail("handlers/start_stage/handler.py", n, "late-StartStage guard does not return")
+    t = Tr("handlers/start_stage/handler.py", {"stage.status": ("st", "status")}).term(n.test)
+    out.append(f"(* handlers/start_stage/handler.py:{n.lineno} `if {ast.unparse(n.test)}: return` before the wait/retry path *)")
+    out.append(f"Definition start_stage_late (st : status) : bool := {t}.\n")
     # the claim CAS phase
     src = ast.unparse(_parse("handlers/start_stage/handler.py"))
     if "txn.store_stage(stage, expected_phase=claim_expected_phase)" not in src or "claim_expected_phase = 'NOT_STARTED'" not in src:
